@@ -519,11 +519,11 @@ def build_workload(ctx):
         work.append((g, groups))
     fixed, work = work, []
     # random graphs
-    n_graphs = (220 if ctx.thorough else 110) if big else 45
+    n_graphs = (420 if ctx.thorough else 110) if big else 45
     n_cfg = 10 if big else 6
     n_req = 9 if big else 7
     for _ in range(n_graphs):
-        g = gen_graph(rng, 7 if big else 6)
+        g = gen_graph(rng, (8 if ctx.thorough else 7) if big else 6)
         groups = []
         if g["n"] <= 4 and rng.random() < 0.5:
             cfgs = [[fe(s)] for s in all_subsets(g["n"])]
@@ -547,7 +547,7 @@ def build_workload(ctx):
 def run(ctx):
     ctx.coverage["rule"] = (
         "plan: 5 fixed graph shapes x every stored subset x every single target x save/time-range/forbid variants, plus "
-        "seeded random DAGs (<=6 data types quick, <=7 thorough; single- and multi-output plugins with per-output "
+        "seeded random DAGs (<=6 data types quick, <=7 escalated, <=8 thorough; single- and multi-output plugins with per-output "
         "save_when) x stored subsets (all subsets for <=4 types half of the time, random otherwise) over 1-2 "
         "DataDirectory frontends with readonly/take_only/exclude x random targets/save=/modifiers/forbid_creation_of; "
         "non-trivial = the plan mixes loaded and computed data types, or saves something, or is an explicit error; "
@@ -808,7 +808,7 @@ def _exec_one(w, g, rq, entry, processor, tag="x", timeout=8):
 
 def _unit_exec(ctx, work, model, pool, t_start, budget):
     rng = ctx.rng
-    n_want = 6000 if ctx.thorough else 600
+    n_want = 12000 if ctx.thorough else 600
     pool = list(pool)
     rng.shuffle(pool)
     pool = sorted(pool[:n_want])
